@@ -400,12 +400,34 @@ func tokenOfSuffix(suffix string) (tok string, isNFT bool, ok bool) {
 }
 
 func (o *freezeOracle) Leg(c *explore.Ctx, leg *world.Leg) {
-	if !leg.OK() || leg.Pre == leg.Post {
+	if !leg.OK() {
 		return
 	}
 	p := o.property
 	in := leg.Input
 	sys := isSysCaller(leg)
+	// the controls have the effect the flags are defined by: the frozen flag lives in the account's
+	// entry of the token, the paused flag in the system account 0xff..ff of the shard
+	if sys && len(in.Arguments) > 0 && leg.Post != nil {
+		tok := string(in.Arguments[0])
+		switch leg.Func {
+		case vmcommon.BuiltInFunctionESDTPause, vmcommon.BuiltInFunctionESDTUnPause:
+			want := leg.Func == vmcommon.BuiltInFunctionESDTPause
+			if spec.Paused(leg.Post, leg.Shard, tok) != want {
+				c.Report(p, "toggle", leg.Func+":no-effect", fmt.Sprintf("%s addressed to %x returned Ok on shard %d, yet the paused flag of %q in the shard's system account is %v afterwards",
+					leg.Func, in.RecipientAddr, leg.Shard, tok, !want))
+			}
+		case vmcommon.BuiltInFunctionESDTFreeze, vmcommon.BuiltInFunctionESDTUnFreeze:
+			want := leg.Func == vmcommon.BuiltInFunctionESDTFreeze
+			if spec.Frozen(leg.Post.GetOn(leg.Shard, in.RecipientAddr), tok) != want {
+				c.Report(p, "toggle", leg.Func+":no-effect", fmt.Sprintf("%s of %s returned Ok, yet the frozen flag of %q in its entry is %v afterwards",
+					leg.Func, uni.Name(in.RecipientAddr), tok, !want))
+			}
+		}
+	}
+	if leg.Pre == leg.Post {
+		return
+	}
 	if sys && (leg.Func == vmcommon.BuiltInFunctionESDTWipe || leg.Func == vmcommon.BuiltInFunctionESDTUnFreeze || leg.Func == vmcommon.BuiltInFunctionESDTUnPause) {
 		return
 	}
